@@ -62,6 +62,16 @@ MEMBERS = {
 }
 
 
+def quantile_key(kern, scale, shape, where):
+    """Stable key of a quantile clause.  Two parameter regions in which the
+    iterative quantiles are wrong for a known reason get their own key."""
+    if kern == "gamma" and scale != int(scale):
+        return "C14.quantile.gamma.noninteger_alpha." + where
+    if kern == "exponential_power" and (scale != 1 or 1.0 / shape != int(1.0 / shape)):
+        return "C14.quantile.exponential_power.general." + where
+    return "C14.quantile.%s.%s" % (kern, where)
+
+
 def fnum(x):
     """A double as text that std::stod reads back exactly."""
     if isinstance(x, int):
@@ -262,6 +272,14 @@ CORPUS = [
     "Q weibull 2 3 0.5 0.25 0.9",
     "W weibull 25 3 0.9 10 10 1 5 5 12 12",
     "Q power_law 2 1 0.5 0.9",
+    # densities that are infinite at distance 0: Weibull shape < 1, gamma alpha < 1
+    "W weibull 20 0.5 0.75 30 30 1 5 5 8 8",
+    "W gamma 0.5 4 0.6 10 30 1 5 5 8 8",
+    # gamma with integer and non-integer alpha; exponential power with alpha = 1 and alpha = 2
+    "Q gamma 2 0.5 0.1 0.5 0.9",
+    "Q gamma 1.5 0.5 0.1 0.5 0.9",
+    "Q exponential_power 1 1 0.6 0.9",
+    "Q exponential_power 2 1 0.6 0.9",
 ]
 
 
@@ -624,7 +642,7 @@ def check(ctx, replay=None):
                 model_lines.append("N")
                 skip_cells.add(k)
                 skip_dims.add(k)
-                ctx.violation("C14.quantile.%s.throws" % kern,
+                ctx.violation(quantile_key(kern, scale, shape, "throws"),
                               "constructing the deterministic %s kernel (scale %s, shape %s, percentage %s) failed: %s"
                               % (kern, t[2], t[3], t[4], (lines or ["no output"])[0][:80]), line)
                 continue
@@ -713,7 +731,7 @@ def check(ctx, replay=None):
                 qs = []
                 for u, vt in zip(xs, vals):
                     if vt.startswith("err"):
-                        ctx.violation("C14.quantile.%s.throws" % kern, "%s icdf(%s) with scale %s, shape %s throws %s"
+                        ctx.violation(quantile_key(kern, scale, shape, "throws"), "%s icdf(%s) with scale %s, shape %s throws %s"
                                       % (kern, u, t[2], t[3], vt), "Q %s %s %s %s" % (kern, t[2], t[3], fnum(u)))
                         qs.append(float("nan"))
                     else:
@@ -771,7 +789,7 @@ def check(ctx, replay=None):
             F = payload.values.get(wc["maxd"])
             stats["quantile_points"] += 1
             if F is not None and abs(F - wc["pct"]) > TOL[kern]:
-                ctx.violation("C14.quantile.%s.window" % kern,
+                ctx.violation(quantile_key(kern, wc["scale"], wc["shape"], "window"),
                               "%s: the window extends to %.9g, below which %.6f of the kernel's distribution lies (pdf integrated numerically), not %s"
                               % (wc["label"], wc["maxd"], F, fnum(wc["pct"])), line)
         else:
@@ -784,7 +802,7 @@ def check(ctx, replay=None):
                 F = req.values.get(q)
                 stats["quantile_points"] += 1
                 if F is None or abs(F - u) > TOL[kern]:
-                    ctx.violation("C14.quantile.%s.grid" % kern,
+                    ctx.violation(quantile_key(kern, float(t[2]), float(t[3]), "grid"),
                                   "%s (scale %s, shape %s): icdf(%s) = %.9g but the cdf of the same pdf there is %s"
                                   % (kern, t[2], t[3], fnum(u), q, "%.6f" % F if F is not None else "undefined"),
                                   "Q %s %s %s %s" % (kern, t[2], t[3], fnum(u)))
